@@ -47,16 +47,19 @@ void h_K01_cover(void) {
 '''
 
 HARNESS_CALLSITE = r'''
-bigint g_in_cs_value; size_t g_in_cs_sz; int g_in_cs_sign, g_in_cs_impossible;
+bigint g_in_cs_value; size_t g_in_cs_sz; int g_in_cs_sign, g_in_cs_impossible, g_in_cs_bool;
 void h_callsite(void) {
     struct VValue v; v.vtype = VV_INT; v.impossible = nondet_bool(); v.intvalue = nondet_bigint(); v.floatValue = 0.0;
     size_t sz = nondet_size_t(); enum Sign s = (enum Sign)nondet_int();
     /* sizes of integral destination types (ValueType::getSizeOf: 0 = unknown, else 1..8 bytes on the supported platforms) */
     __CPROVER_assume(sz <= 8 && (s == Sign_UNKNOWN_SIGN || s == Sign_SIGNED || s == Sign_UNSIGNED));
     bigint old = v.intvalue; g_in_cs_value = old; g_in_cs_sz = sz; g_in_cs_sign = s; g_in_cs_impossible = v.impossible;
+    dst_is_bool = nondet_bool(); if (dst_is_bool) __CPROVER_assume(sz == 1 && s == Sign_UNKNOWN_SIGN);
+    g_in_cs_bool = dst_is_bool;
     truncateValues_block(&v, sz, s);
     __CPROVER_assert(v.vtype == VV_INT && v.impossible == g_in_cs_impossible, "kind and impossibility of the value are kept");
-    if (v.impossible || sz == 0 || sz == 8) __CPROVER_assert(v.intvalue == old, "impossible values and full-width / unknown-size destinations keep the value");
+    if (dst_is_bool && !v.impossible) __CPROVER_assert(v.intvalue == (old != 0), "a value stored in a bool is 0 for 0 and 1 for everything else (C11 6.3.1.2)");
+    else if (v.impossible || sz == 0 || sz == 8) __CPROVER_assert(v.intvalue == old, "impossible values and full-width / unknown-size destinations keep the value");
     else if (s == Sign_SIGNED) __CPROVER_assert(v.intvalue >= -(1LL << (8 * sz - 1)) && v.intvalue < (1LL << (8 * sz - 1)) && (((biguint)v.intvalue ^ (biguint)old) & ((1ULL << (8 * sz)) - 1)) == 0,
                                                 "a value stored in a signed destination of sz bytes is the C conversion of the assigned value (C11 6.3.1.3)");
     else __CPROVER_assert((biguint)v.intvalue == ((biguint)old & ((1ULL << (8 * sz)) - 1)), "a value stored in an unsigned destination of sz bytes is the assigned value modulo 2^(8 sz)");
@@ -124,19 +127,20 @@ def build(ctx):
     kb.add_located("truncateValues [per-value block]", reg, "region")
     tc, k = located_rules(reg, _common.VT_RULES + [
         (r'\bvalue\.isImpossible\(\)', 'v->impossible', 1, 1),
-        (r'\bvalue\.isFloatValue\(\)', '(v->vtype == VV_FLOAT)', 1, 1),
-        (r'\bvalue\.isIntValue\(\)', '(v->vtype == VV_INT)', 1, 1),
-        (r'\bvalue\.valueType\s*=\s*ValueFlow::Value::ValueType::INT\s*;', 'v->vtype = VV_INT;', 1, 1),
+        (r'\bvalue\.isFloatValue\(\)', '(v->vtype == VV_FLOAT)', 1, 3),
+        (r'\bvalue\.isIntValue\(\)', '(v->vtype == VV_INT)', 1, 2),
+        (r'\bvalue\.valueType\s*=\s*ValueFlow::Value::ValueType::INT\s*;', 'v->vtype = VV_INT;', 1, 2),
         (r'\bvalue\.(intvalue|floatValue)\b', r'v->\1', 3),
         (r'\bValueFlow::truncateIntValue\(', 'truncateIntValue(', 1, 1),
         (r'\bdst->sign\b', 'dst_sign', 1, 1),
-        (r'\bcontinue\s*;', 'return;', 1, 1),
+        (r'\bdst->type == VType_BOOL && dst->pointer == 0\b', 'dst_is_bool', 0, 1),
+        (r'\bcontinue\s*;', 'return;', 1, 2),
     ], ID + ".truncateValues"); n += k
     if re.search(r'\bvalue\.|ValueFlow|dst->|settings', extract.mask(tc)):
         raise extract.ExtractError("K01c: per-value block not fully lowered: %r" % tc.strip()[:300])
     kb.rules_fired = n
     callsite = ("enum VVType { VV_INT, VV_FLOAT, VV_OTHER };\nstruct VValue { enum VVType vtype; _Bool impossible; bigint intvalue; double floatValue; };\n"
-                "void truncateValues_block(struct VValue *v, const size_t sz, enum Sign dst_sign)\n{\n%s\n}\n" % extract.strip_comments(tc))
+                "_Bool dst_is_bool;   /* the destination is a (non-pointer) bool: dst->type == BOOL && dst->pointer == 0 */\nvoid truncateValues_block(struct VValue *v, const size_t sz, enum Sign dst_sign)\n{\n%s\n}\n" % extract.strip_comments(tc))
     extract.residue_scan(callsite, ID)
     kb.ctext = _common.BASE + enums + trunc_text + callsite + HARNESS + HARNESS_CALLSITE
     kb.job("callsite.truncateValues", "h_callsite", replace=["truncateIntValue"],
